@@ -1,4 +1,4 @@
-// C06 (part 1/5) — non-modifying sequence operations of etl/algorithm.hpp against std:: on a copy.
+// C06 (part 1/6) — non-modifying sequence operations of etl/algorithm.hpp against std:: on a copy.
 // Engine E2 (exhaustive small-scope enumeration) + seeded random longer inputs.  See C06_common.cpp.
 //
 // Covered here: all_of any_of none_of for_each for_each_n count count_if mismatch(3-it,4-it,+-pred)
